@@ -4,13 +4,14 @@ namespace Chf.Gen
 open Chf.LockDiscipline
 
 /-- every `Lock()` statement of the request path: where, kind, calls before the unlock is guaranteed,
-    unguarded Unlocks elsewhere, further Locks of the same mutex in the function -/
+    unguarded Unlocks elsewhere, further Locks of the same mutex in the function, calls that wait for the consumer
+    while the mutex is held -/
 def lockSites : List LockSite := [
-  ⟨"cdr.go:OpenCDR:self", 2, 0, 0, 0⟩,
-  ⟨"converged_charging.go:ChargingDataCreate:ue.CULock", 1, 0, 0, 0⟩,
-  ⟨"converged_charging.go:ChargingDataRelease:ue.CULock", 0, 0, 0, 0⟩,
-  ⟨"converged_charging.go:ChargingDataUpdate:ue.CULock", 0, 0, 0, 0⟩,
-  ⟨"converged_charging.go:NotifyRecharge:ue.CULock", 2, 0, 0, 0⟩
+  ⟨"cdr.go:OpenCDR:self", 2, 0, 0, 0, 0⟩,
+  ⟨"converged_charging.go:ChargingDataCreate:ue.CULock", 1, 0, 0, 0, 0⟩,
+  ⟨"converged_charging.go:ChargingDataRelease:ue.CULock", 0, 0, 0, 0, 0⟩,
+  ⟨"converged_charging.go:ChargingDataUpdate:ue.CULock", 0, 0, 0, 0, 0⟩,
+  ⟨"converged_charging.go:NotifyRecharge:ue.CULock", 2, 0, 0, 0, 0⟩
 ]
 
 end Chf.Gen
